@@ -47,3 +47,12 @@ U("c09_sub_asset_paths_css_offset", ["C09"], "h_sub_paths", ["C09/sub_paths.c"],
   callees={"d_string_replace_text_in_range": "contract stub (C19): returns the length change; checks the range and the replacement", "traverse_for_images": "contract stub recording *offset at entry (its contract: c09_traverse_for_images_offsets)",
            "HASH_FIND_STR (uthash)": "real macro code over a real one-entry table", "stack_peek_index/stack_new/stack_push": "body", "memcpy/strcmp": "byte-loop models", "token_skip_until_type": "contract stub"},
   min_obligations=10, timeout=300, cost=15, assumptions=[NOFAIL])
+
+# ---- an inline image whose URL is longer than the caller's 1000-byte scratch buffer (finding 34, fixed in /repo 612fa98)
+U("c09_traverse_for_images_long_url", ["C09", "C01"], "h_traverse_long", ["C09/traverse_long.c"], ["textbundle.c", "stack.c"], plain=True, lib=(), kind="bounded",
+  defines=["-DI18N_DISABLED=1"], cbmc_flags=["--unwind", "6", "--unwinding-assertions", "--object-bits", "12"],
+  pre_instrument=["--remove-function-body-regex", "^(?!traverse_for_images$|memcpy$|clean_string$|d_string_replace_text_in_range$|stack_.*$|h_traverse_long$|mk$|verif_.*$|__CPROVER.*$).*"],
+  bounds={"shape": "one paragraph holding one inline image naming the stored asset", "parenthesis span": "2..4000 bytes (symbolic)", "url buffer": "1000 bytes (call site)", "unwind": 6},
+  functions=["traverse_for_images"],
+  callees={"memcpy": "contract stub: destination writable / source readable for the whole length", "clean_string, d_string_replace_text_in_range": "contract stubs", "HASH_FIND_STR (uthash)": "real macro code over a real one-entry table", "stack_new": "body"},
+  min_obligations=10, timeout=300, cost=15, assumptions=[NOFAIL])
